@@ -219,6 +219,9 @@ def generate(tier):
         cases.append({"coef": coef, "derived": derived, "ia": ia, "law": law, "names": names})
 
     if tier in ("thorough", "quick"):
+        for files, (i, a), (j, b) in it.product(SESSION_FILES, enumerate(SESSION_CASES), enumerate(SESSION_CASES)):
+            if i != j:
+                cases.append({"family": "session", "files": files, "first": a, "second": b, "names": "plain"})
         # full structural product under the two identifier variants that need no escaping ...
         for coef, derived, ia, law, names in it.product(COEFS, DERIVED, IAS, range(nlaws), ("plain", "dunder")):
             add(coef, derived, ia, law, names)
@@ -254,11 +257,24 @@ def _close(a, b):
     return abs(a - b) <= 1e-9 + 1e-9 * max(abs(a), abs(b))
 
 
+# one process, several files: what a second write/read under a related file name must not inherit from the first
+SESSION_FILES = {
+    "same-path": ("a/model.xml", "a/model.xml"),              # the model was revised and exported again
+    "same-stem-other-dir": ("a/model.xml", "b/model.xml"),
+    "stem-differs-in-punctuation": ("a/my-model.xml", "a/my_model.xml"),
+    "stem-differs-in-case": ("a/Model.xml", "a/model.xml"),
+}
+SESSION_CASES = [
+    {"coef": "one", "derived": "none", "ia": "none", "law": 0, "names": "plain"},
+    {"coef": "pname", "derived": "chain", "ia": "none", "law": 2, "names": "plain"},
+    {"coef": "one", "derived": "none", "ia": "none", "law": 23, "names": "dunder"},
+    {"coef": "half", "derived": "one", "ia": "none", "law": 12, "names": "plain"},
+]
+
+
 def check(case):
     import logging
     import warnings
-
-    from mxlpy import sbml
 
     logging.getLogger("mxlpy").setLevel(logging.CRITICAL)
     logging.getLogger("pysbml").setLevel(logging.CRITICAL)
@@ -266,11 +282,33 @@ def check(case):
     home = WORK_DIR / "C08" / f"home_{os.getpid()}"
     home.mkdir(parents=True, exist_ok=True)
     os.environ["HOME"] = str(home)
+    if case.get("family") == "session":
+        d = home / f"s_{sha12(case)}"
+        fa, fb = (d / f for f in SESSION_FILES[case["files"]])
+        try:
+            for f, c in ((fa, case["first"]), (fb, case["second"])):
+                f.parent.mkdir(parents=True, exist_ok=True)
+                res = roundtrip(c, f)
+                if not res["ok"]:
+                    res["symptom"] = f"session:{res['symptom']}"
+                    res["detail"] = f"[{case['files']}: second of two round trips in one process]" * (f is fb) + res["detail"]
+                    res["nontrivial"] = True
+                    return res
+        finally:
+            import shutil
+
+            shutil.rmtree(d, ignore_errors=True)
+        return outcome(True, "session-roundtrips-equal", nontrivial=True)
+    return roundtrip(case, home / f"c08_{sha12(case)}.xml")
+
+
+def roundtrip(case, file):
+    from mxlpy import sbml
+
     cls = law_class(case["law"])
     nontrivial = not (case["coef"] == "one" and case["derived"] == "none" and case["ia"] == "none" and case["law"] == 0 and case["names"] == "plain")
     m1, nm = build_model(case)
     txt = f"law=`{(LAWS + BODIES)[case['law']][0]}` ({cls}) shape={case}"
-    file = home / f"c08_{sha12(case)}.xml"
     try:
         sbml.write(m1, file)
     except Exception as exc:  # noqa: BLE001
